@@ -181,6 +181,7 @@ hstubs! { #[kani::unwind(4)] fn c11_set_vring_call_step() {
     let kb = Arc::new(KB::new(1, 256, u64::MAX, vec![1]));
     let mut h = mk_handler(kb.clone(), 1);
     let (_ready, en, has_kick) = arbitrary_ring_state(&h);
+    if kani::any() { h.vrings[0].set_call(Some(unsafe { File::from_raw_fd(203) })); }     // a call descriptor installed by an earlier message
     let with: bool = kani::any();
     let r = h.set_vring_call(0, if with { Some(unsafe { File::from_raw_fd(202) }) } else { None });
     assert!(r.is_ok());
